@@ -19,7 +19,7 @@ from typing import Any, Callable
 import z3
 
 from .engine import Interp, PathAbort, PyExc, VCoro, Frame
-from .values import (NONE, IntSeq, Unsupported, V, VBool, VBound, VBytes, VConst, VDict, VFloat,
+from .values import (simp, NONE, IntSeq, Unsupported, V, VBool, VBound, VBytes, VConst, VDict, VFloat,
                      VInt, VList, VObj, VStr, VSuper, VTuple, wrap)
 
 # --------------------------------------------------------------------------- spec functions
@@ -39,7 +39,7 @@ def pow256(n: Any, table: bool = False) -> Any:
     need numerals, passes table=True)."""
     if isinstance(n, int):
         n = z3.IntVal(n)
-    n = z3.simplify(n)
+    n = simp(n)
     if z3.is_int_value(n):
         if n.as_long() > 64:
             return P256BIG(n)  # astronomically large: never compared with a numeral
@@ -54,7 +54,7 @@ def pow256(n: Any, table: bool = False) -> Any:
 def pow2(n: Any) -> Any:
     if isinstance(n, int):
         return z3.IntVal(2 ** n)
-    n = z3.simplify(n)
+    n = simp(n)
     if z3.is_int_value(n):
         return z3.IntVal(2 ** max(0, n.as_long()))
     t = P2BIG(n)
@@ -64,7 +64,7 @@ def pow2(n: Any) -> Any:
 
 
 def seq_len_concrete(t: Any) -> int | None:
-    n = z3.simplify(z3.Length(t))
+    n = simp(z3.Length(t))
     return n.as_long() if z3.is_int_value(n) else None
 
 
@@ -95,6 +95,8 @@ def part_len(p: Any) -> Any:
     k = p.decl().kind() if z3.is_app(p) else None
     if k == z3.Z3_OP_SEQ_UNIT:
         return z3.IntVal(1)
+    if z3.is_app(p) and p.decl().eq(BE):
+        return p.arg(1)  # Length(BE(x, n)) == n
     hit = _KNOWN_LEN.get(p.get_id())
     if hit is not None:
         return hit[1]
@@ -106,8 +108,8 @@ def seq_len(t: Any) -> Any:
     ps = flatten(t)
     if not ps:
         return z3.IntVal(0)
-    return z3.simplify(z3.Sum(*[part_len(p) for p in ps])) if len(ps) > 1 else \
-        z3.simplify(part_len(ps[0]))
+    return simp(z3.Sum(*[part_len(p) for p in ps])) if len(ps) > 1 else \
+        simp(part_len(ps[0]))
 
 
 def seq_cat(ps: list[Any]) -> Any:
@@ -117,14 +119,14 @@ def seq_cat(ps: list[Any]) -> Any:
 
 
 def _is_zero(t: Any) -> bool:
-    t = z3.simplify(t)
+    t = simp(t)
     return z3.is_int_value(t) and t.as_long() == 0
 
 
 def linear_decompose(t: Any, w: int) -> tuple[Any, int] | None:
     """t == w*q + r with 0 <= r < w for a linear term t whose non-constant coefficients are all
     multiples of w.  Returns (q, r)."""
-    t = z3.simplify(t)
+    t = simp(t)
     terms: list[tuple[int, Any]] = []
     const = 0
 
@@ -154,7 +156,7 @@ def linear_decompose(t: Any, w: int) -> tuple[Any, int] | None:
     q: Any = z3.IntVal(const // w)
     for c, u in terms:
         q = q + (c // w) * u
-    return z3.simplify(q), r
+    return simp(q), r
 
 
 def _chunk_of(I: Any, p: Any) -> Any:
@@ -168,7 +170,7 @@ def chunk_slice(I: Any, ch: Any, rel_a: Any, length: Any) -> Any | None:
     chunk: elem(q)[r : r+length]."""
     if ch.width is None:
         return None
-    ln = z3.simplify(length)
+    ln = simp(length)
     if not z3.is_int_value(ln):
         return None
     d = linear_decompose(rel_a, ch.width)
@@ -194,7 +196,7 @@ def structural_slice(t: Any, a: Any, b: Any, I: Any = None) -> Any | None:
     ps = flatten(t)
     offs = [z3.IntVal(0)]
     for p in ps:
-        offs.append(z3.simplify(offs[-1] + part_len(p)))
+        offs.append(simp(offs[-1] + part_len(p)))
 
     def find(x: Any) -> int | None:
         r = next((i for i, o in enumerate(offs) if _is_zero(x - o)), None)
@@ -208,16 +210,16 @@ def structural_slice(t: Any, a: Any, b: Any, I: Any = None) -> Any | None:
         for i, p in enumerate(ps):
             ch = _chunk_of(I, p)
             if ch is not None:
-                r = chunk_slice(I, ch, z3.simplify(a - offs[i]), z3.simplify(b - a))
+                r = chunk_slice(I, ch, simp(a - offs[i]), simp(b - a))
                 if r is not None:
                     return r
     if ia is not None and ib is not None:
         return seq_cat(ps[ia:ib]) if ib >= ia else z3.Empty(IntSeq)
     if ia is not None:
         rest = seq_cat(ps[ia:])
-        return z3.SubSeq(rest, z3.IntVal(0), z3.simplify(b - a))
+        return z3.SubSeq(rest, z3.IntVal(0), simp(b - a))
     if ib is not None:
-        return z3.SubSeq(seq_cat(ps[:ib]), a, z3.simplify(b - a))
+        return z3.SubSeq(seq_cat(ps[:ib]), a, simp(b - a))
     return None
 
 
@@ -227,20 +229,20 @@ def structural_index(t: Any, i: Any, I: Any = None) -> Any | None:
     for p in ps:
         ch = _chunk_of(I, p)
         if ch is not None:
-            r = chunk_slice(I, ch, z3.simplify(i - off), z3.IntVal(1))
+            r = chunk_slice(I, ch, simp(i - off), z3.IntVal(1))
             if r is not None:
-                r = z3.simplify(r)
+                r = simp(r)
                 if z3.is_app(r) and r.decl().kind() == z3.Z3_OP_SEQ_UNIT:
                     return r.arg(0)
                 return r[0]
         if z3.is_app(p) and p.decl().kind() == z3.Z3_OP_SEQ_UNIT and (
                 _is_zero(i - off) or (I is not None and I.entails(i == off))):
             return p.arg(0)
-        d = z3.simplify(i - off)
-        pl = z3.simplify(part_len(p))
+        d = simp(i - off)
+        pl = simp(part_len(p))
         if z3.is_int_value(d) and z3.is_int_value(pl) and 0 <= d.as_long() < pl.as_long():
             return p[d] if pl.as_long() > 1 or p.decl().kind() != z3.Z3_OP_SEQ_UNIT else p.arg(0)
-        off = z3.simplify(off + pl)
+        off = simp(off + pl)
     return None
 
 
@@ -260,7 +262,7 @@ def mk_fb(I: Interp, s: Any) -> Any:
                 el = s[i]
             acc = acc * 256 + el
             I.assume(z3.And(el >= 0, el <= 255))
-        return z3.simplify(acc)
+        return simp(acc)
     # BE(x, n) round trip is structural
     if z3.is_app(s) and s.decl().eq(BE):
         return s.arg(0)
@@ -281,17 +283,17 @@ def mk_fb(I: Interp, s: Any) -> Any:
 
 def mk_be(I: Interp, x: Any, n: Any) -> Any:
     """x.to_bytes(n, 'big') for 0 <= x < 256**n, n >= 0 (callers check the range)."""
-    nc = z3.simplify(n) if not isinstance(n, int) else z3.IntVal(n)
+    nc = simp(n) if not isinstance(n, int) else z3.IntVal(n)
     if z3.is_int_value(nc) and nc.as_long() <= EXPLICIT_WIDTH:
         k = nc.as_long()
         if k == 0:
             return z3.Empty(IntSeq)
         # callers guarantee 0 <= x < 256**k, so the most significant byte needs no reduction
-        parts = [z3.Unit(z3.simplify(x / z3.IntVal(256 ** (k - 1)) if k > 1 else x))]
-        parts += [z3.Unit(z3.simplify((x / z3.IntVal(256 ** (k - 1 - i))) % 256))
+        parts = [z3.Unit(simp(x / z3.IntVal(256 ** (k - 1)) if k > 1 else x))]
+        parts += [z3.Unit(simp((x / z3.IntVal(256 ** (k - 1 - i))) % 256))
                   for i in range(1, k)]
         return parts[0] if k == 1 else z3.Concat(*parts)
-    x = z3.simplify(x)
+    x = simp(x)
     # to_bytes(from_bytes(s), len(s)) == s is structural
     if z3.is_app(x) and x.decl().eq(FB) and _is_zero(seq_len(x.arg(0)) - nc):
         return x.arg(0)
@@ -386,11 +388,15 @@ def iterate(I: Interp, v: V) -> list[V]:
     if isinstance(v, VList):
         if v.items is not None:
             return list(v.items)
-        n = z3.simplify(v.n)
+        n = simp(v.n)
         if z3.is_int_value(n):
             return [v.get(z3.IntVal(j)) for j in range(n.as_long())]
         k = I.concrete_value(n)
         if k is not None and 0 <= k <= 4096:
+            return [v.get(z3.IntVal(j)) for j in range(k)]
+        if I.entails(z3.And(n >= 0, n <= 4)):
+            # a length the path condition bounds by a small constant: case split (exact)
+            k = I.choose([n == i for i in range(5)])
             return [v.get(z3.IntVal(j)) for j in range(k)]
         raise Unsupported("iteration over a sequence of symbolic length (needs a loop template)")
     if isinstance(v, VDict):
@@ -399,7 +405,7 @@ def iterate(I: Interp, v: V) -> list[V]:
         n = seq_len_concrete(v.t)
         if n is None:
             raise Unsupported("iteration over bytes of symbolic length")
-        return [VInt(z3.simplify(v.t[i])) for i in range(n)]
+        return [VInt(simp(v.t[i])) for i in range(n)]
     if isinstance(v, VStr) and v.s is not None:
         return [VStr(c) for c in v.s]
     if isinstance(v, VConst):
@@ -483,6 +489,14 @@ def bytes_eq(I: Interp, at: Any, bt: Any) -> Any:
     from . import loops
     if at is None or bt is None:
         raise Unsupported("comparison of ascii-bytes with raw bytes")
+    for whole, other in ((at, bt), (bt, at)):
+        if len(flatten(whole)) == 1 and len(flatten(other)) > 1:
+            f = partition_formula(I, whole, other)
+            if f is not None:
+                # slice partition lemma: consecutive slices (and single elements) of a byte
+                # string that cover it completely concatenate to that byte string
+                I.assume(z3.Implies(f, at == bt))
+                I.ex.assumptions.add("slice partition lemma (sequence fact)")
     chunks = I.ghost.get("chunks")
     if not chunks:
         return at == bt
@@ -516,6 +530,24 @@ def bytes_eq(I: Interp, at: Any, bt: Any) -> Any:
     I.ex.assumptions.add("chunk lemma: equal chunk count and pointwise equal chunks imply equal "
                          "concatenations (sequence fact, cross-checked on CPython)")
     return e
+
+
+def partition_formula(I: Interp, whole: Any, other: Any) -> Any | None:
+    off: Any = z3.IntVal(0)
+    conds = []
+    n = seq_len(whole)
+    for p in flatten(other):
+        k = p.decl().kind() if z3.is_app(p) else None
+        if k == z3.Z3_OP_SEQ_UNIT:
+            conds.append(p.arg(0) == whole[off])
+            off = simp(off + 1)
+        elif k == z3.Z3_OP_SEQ_EXTRACT and p.arg(0).eq(whole):
+            conds.append(z3.And(p.arg(1) == off, p.arg(2) >= 0, p.arg(1) + p.arg(2) <= n))
+            off = simp(off + p.arg(2))
+        else:
+            return None
+    conds.append(off == n)
+    return z3.And(*conds)
 
 
 def seq_eq(I: Interp, a: VList, b: VList) -> Any:
@@ -764,6 +796,7 @@ def binop(I: Interp, op: ast.operator, a: V, b: V) -> V:
         if xc == 2 and yc is None:
             if I.branch(y < 0):
                 raise Unsupported("negative exponent")
+            I.assume(pow2(y) >= 1)
             return VInt(pow2(y))
         raise Unsupported("symbolic power")
     if isinstance(op, ast.LShift):
@@ -777,7 +810,7 @@ def binop(I: Interp, op: ast.operator, a: V, b: V) -> V:
             raise Unsupported("shift by symbolic amount")
         if yc < 0:
             I.raise_py(ValueError, "negative shift count")
-        xs = z3.simplify(x)
+        xs = simp(x)
         if z3.is_mul(xs) and xs.num_args() == 2 and z3.is_int_value(xs.arg(0)) \
                 and xs.arg(0).as_long() == 2 ** yc:
             return VInt(xs.arg(1))  # (t * 2^k) >> k == t
@@ -860,7 +893,7 @@ def unaryop(I: Interp, op: ast.unaryop, v: V) -> V:
 
 
 def _ite_v(I: Interp, c: Any, a: Callable[[], V], b: Callable[[], V]) -> V:
-    c = z3.simplify(c) if z3.is_expr(c) else c
+    c = simp(c) if z3.is_expr(c) else c
     if c is True or (z3.is_expr(c) and z3.is_true(c)):
         return a()
     if c is False or (z3.is_expr(c) and z3.is_false(c)):
@@ -875,7 +908,7 @@ from .values import ite_values  # noqa: E402
 # --------------------------------------------------------------------------- indexing
 def norm_index(I: Interp, i: Any, n: Any, what: str) -> Any:
     """Python index normalisation with the IndexError fork.  Returns the non-negative index."""
-    ic = z3.simplify(i)
+    ic = simp(i)
     if z3.is_int_value(ic):
         k = ic.as_long()
         if k >= 0:
@@ -901,7 +934,7 @@ def getitem(I: Interp, base: V, idx: V) -> V:
         if el is None:
             el = base.t[j]
         I.assume(z3.And(el >= 0, el <= 255))
-        return VInt(z3.simplify(el))
+        return VInt(simp(el))
     if isinstance(base, (VTuple, VList)) and getattr(base, "items", None) is not None:
         if not is_intlike(idx):
             I.raise_py(TypeError, "indices must be integers")
@@ -951,7 +984,7 @@ def _clamp(I: Interp, v: V | None, n: Any, default: Any) -> Any:
     if v is None or v is NONE:
         return default
     i = as_int(I, v)
-    ic = z3.simplify(i)
+    ic = simp(i)
     if z3.is_int_value(ic):
         k = ic.as_long()
         if k >= 0:
@@ -979,15 +1012,18 @@ def getslice(I: Interp, base: V, lo: V | None, hi: V | None, step: V | None) -> 
         n = seq_len(base.t)
         a = _clamp(I, lo, n, z3.IntVal(0))
         b = _clamp(I, hi, n, n)
-        ln = z3.simplify(b - a)
+        ln = simp(b - a)
         if not (z3.is_int_value(ln) and ln.as_long() >= 0) and not I.entails(b - a >= 0) \
                 and I.feasible(b - a < 0):
             ln = z3.If(b - a < 0, z3.IntVal(0), b - a)
         else:
-            st = structural_slice(base.t, z3.simplify(a), z3.simplify(b), I)
-            if st is not None:
-                return VBytes(z3.simplify(st), base.mutable)
-        return VBytes(z3.simplify(z3.SubSeq(base.t, a, ln)), base.mutable)
+            # a, b are clamped into [0, n] and b - a >= 0 here: the slice has exactly b - a bytes
+            st = structural_slice(base.t, simp(a), simp(b), I)
+            res = simp(st) if st is not None else simp(z3.SubSeq(base.t, a, ln))
+            if not flatten(res) or len(flatten(res)) == 1:
+                set_known_len(res, simp(ln))
+            return VBytes(res, base.mutable)
+        return VBytes(simp(z3.SubSeq(base.t, a, ln)), base.mutable)
     if isinstance(base, (VTuple, VList)) and getattr(base, "items", None) is not None:
         loc = None if lo in (None, NONE) else VInt(as_int(I, lo)).concrete()
         hic = None if hi in (None, NONE) else VInt(as_int(I, hi)).concrete()
@@ -1107,6 +1143,22 @@ def joined_str(I: Interp, e: ast.JoinedStr, fr: Frame) -> V:
                 parts.append(v)
     if concrete:
         return VStr("".join(parts))
+    # symbolic strings (C19/C20): plain interpolation of str terms and non-negative ints
+    if all(isinstance(x, str) or (isinstance(x, VStr) and (x.t is not None or x.s is not None))
+           or isinstance(x, VInt) for x in parts) and \
+            all(p.format_spec is None and p.conversion == -1
+                for p in e.values if isinstance(p, ast.FormattedValue)):
+        ts = []
+        for x in parts:
+            if isinstance(x, str):
+                ts.append(z3.StringVal(x))
+            elif isinstance(x, VStr):
+                ts.append(str_term(x))
+            else:
+                if not I.entails(x.t >= 0):
+                    return VStr(parts=parts)
+                ts.append(z3.IntToStr(x.t))
+        return VStr(t=ts[0] if len(ts) == 1 else z3.Concat(*ts))
     return VStr(parts=parts)
 
 
@@ -1245,7 +1297,7 @@ def model_pack(I: Interp, args: list[V], kwargs: dict[str, V]) -> V:
         parts.append(mk_be(I, x, w))
     if not parts:
         return VBytes(b"")
-    return VBytes(z3.simplify(z3.Concat(*parts)) if len(parts) > 1 else parts[0])
+    return VBytes(simp(z3.Concat(*parts)) if len(parts) > 1 else parts[0])
 
 
 def _pack_repeat(I: Interp, fmt: VStr, vals: list[V]) -> V:
@@ -1287,7 +1339,7 @@ def model_unpack(I: Interp, args: list[V], kwargs: dict[str, V]) -> V:
             continue
         chunk = z3.SubSeq(data.t, z3.IntVal(off), z3.IntVal(w))
         if c == "s":
-            out.append(VBytes(z3.simplify(chunk)))
+            out.append(VBytes(simp(chunk)))
         else:
             acc: Any = z3.IntVal(0)
             for i in range(w):
@@ -1296,7 +1348,7 @@ def model_unpack(I: Interp, args: list[V], kwargs: dict[str, V]) -> V:
                 acc = acc * 256 + el
             if c.islower():
                 acc = z3.If(acc >= 256 ** w // 2, acc - 256 ** w, acc)
-            out.append(VInt(z3.simplify(acc)))
+            out.append(VInt(simp(acc)))
         off += w
     return VTuple(out)
 
@@ -1673,7 +1725,7 @@ def _range(I: Interp, args: list[V], kwargs: dict[str, V]) -> V:
     if step <= 0:
         raise Unsupported("range with non-positive symbolic bounds step")
     n = z3.If(stop > start, (stop - start + (step - 1)) / step, z3.IntVal(0))
-    return VList(None, z3.simplify(n), lambda j: VInt(start + step * j), kind="range")
+    return VList(None, simp(n), lambda j: VInt(start + step * j), kind="range")
 
 
 @register(zip)
@@ -1686,7 +1738,7 @@ def _zip(I: Interp, args: list[V], kwargs: dict[str, V]) -> V:
     for l in lists[1:]:
         ln = l.length()
         n = z3.If(ln < n, ln, n)
-    return VList(None, z3.simplify(n), lambda j: VTuple([l.at(j) for l in lists]))
+    return VList(None, simp(n), lambda j: VTuple([l.at(j) for l in lists]))
 
 
 @register(enumerate)
